@@ -68,6 +68,16 @@ func runC13(c *Ctx) {
 				}
 				cond, neg := condOf(iff.Cond)
 				bo, ok := cond.(*ssa.BinOp)
+				// `validThrough >= fresh cachedDBRoundOnline` (or ==), the form after the C13 repair: the
+				// history is at least as recent as the last postCommit; freshness under the lock is R13.8's.
+				if ok && !neg && (bo.Op == token.GEQ || bo.Op == token.EQL) {
+					if e, isE := strip(bo.X).(*ssa.Extract); isE && e.Tuple == ssa.Value(call.Value()) && e.Index == 1 {
+						if l, isL := bFieldLoad(bo.Y, fSnap); isL && !Dominates(l, call) {
+							out = append(out, Edge{b, 0})
+							continue
+						}
+					}
+				}
 				if !ok || neg || bo.Op != token.GEQ || !isB(bo.X) {
 					continue
 				}
